@@ -18,6 +18,8 @@ inline rc::Gen<int> zero() { return rc::gen::just(0); }
 inline rc::Gen<bool> nojoin() { return rc::gen::just(false); }
 inline rc::Gen<int> idmode() { return rc::gen::weightedElement<int>({{6, scen::ID_NUM}, {3, scen::ID_STR}, {1, scen::ID_NONE}}); }
 
+inline rc::Gen<int> idmode_long() { return rc::gen::weightedElement<int>({{5, scen::ID_NUM}, {3, scen::ID_STR}, {3, scen::ID_LONG}, {1, scen::ID_NONE}}); }
+
 inline int run_main(int argc, char **argv, Campaign &c, const rc::Gen<Scenario> &gen,
                     const std::function<void(Args &, Campaign &)> &configure = {})
 {
